@@ -250,3 +250,137 @@ Lemma paths_agree_unconditioned_refuted :
 Proof.
   exists 0, 0, cf_bad_cqm, [sample_of_list []], []. vm_compute. discriminate.
 Qed.
+
+(* ---------- the uninitialised memory is read (columns > i at step i) but never observed ---------- *)
+
+Lemma from_samples_cqm_garb_irrelevant atol rtol m samples garb garb' :
+  from_samples_cqm atol rtol m samples garb = from_samples_cqm atol rtol m samples garb'.
+Proof. rewrite !from_samples_cqm_spec. reflexivity. Qed.
+
+(* ---------- tolerances ---------- *)
+
+Lemma Qc_leb_le a b : Qc_leb a b = true <-> a <= b.
+Proof. unfold Qc_leb, Qcle. apply Qle_bool_iff. Qed.
+
+Lemma qabs_nonneg q : 0 <= qabs q.
+Proof.
+  unfold qabs. destruct (Qc_leb 0 q) eqn:E.
+  - apply Qc_leb_le. exact E.
+  - assert (H : ~ 0 <= q) by (intro X; apply Qc_leb_le in X; rewrite X in E; discriminate E).
+    apply Qcnot_le_lt in H. apply Qclt_le_weak in H.
+    apply Qcopp_le_compat in H. replace (- 0) with 0 in H by ring. exact H.
+Qed.
+
+Lemma tolerance_mono atol rtol atol' rtol' k :
+  atol <= atol' -> rtol <= rtol' -> tolerance atol rtol k <= tolerance atol' rtol' k.
+Proof.
+  intros Ha Hr. unfold tolerance. apply Qcplus_le_compat; [exact Ha|].
+  apply Qcmult_le_compat_r; [exact Hr|apply qabs_nonneg].
+Qed.
+
+(* loosening the tolerances never turns a satisfied constraint into a violated one *)
+Lemma satisfied_mono atol rtol atol' rtol' k s :
+  atol <= atol' -> rtol <= rtol' ->
+  satisfied atol rtol k s = true -> satisfied atol' rtol' k s = true.
+Proof.
+  intros Ha Hr H. unfold satisfied in *. apply Qc_leb_le. apply Qc_leb_le in H.
+  eapply Qcle_trans; [exact H|]. apply tolerance_mono; assumption.
+Qed.
+
+Lemma forallb_impl {A} (f g : A -> bool) (l : list A) :
+  (forall x, f x = true -> g x = true) -> forallb f l = true -> forallb g l = true.
+Proof.
+  intros H Hf. rewrite forallb_forall in *. intros x Hx. apply H. apply Hf. exact Hx.
+Qed.
+
+Lemma feasible_mono atol rtol atol' rtol' m s :
+  atol <= atol' -> rtol <= rtol' ->
+  feasible atol rtol m s = true -> feasible atol' rtol' m s = true.
+Proof.
+  intros Ha Hr. unfold feasible. apply forallb_impl. intros k. apply satisfied_mono; assumption.
+Qed.
+
+Lemma check_feasible_mono m s atol rtol atol' rtol' :
+  atol <= atol' -> rtol <= rtol' ->
+  check_feasible m s rtol atol = true -> check_feasible m s rtol' atol' = true.
+Proof.
+  intros Ha Hr. rewrite !check_feasible_all. apply forallb_impl. intros k. apply satisfied_mono; assumption.
+Qed.
+
+(* zero tolerances: satisfied iff the violation is not positive, i.e. the constraint holds exactly *)
+Lemma satisfied_zero_tol k s : satisfied 0 0 k s = true <-> violation k s <= 0.
+Proof.
+  unfold satisfied, tolerance. rewrite Qc_leb_le.
+  replace (0 + 0 * qabs (c_rhs k)) with 0 by ring. reflexivity.
+Qed.
+
+(* the soft penalties are never negative when the tolerances are not: energy >= objective *)
+Lemma soft_penalty_nonneg atol rtol k s :
+  0 <= atol -> 0 <= rtol -> (forall w pen, c_soft k = Some (w, pen) -> 0 <= w) ->
+  0 <= soft_penalty atol rtol k s.
+Proof.
+  intros Ha Hr Hw. unfold soft_penalty. destruct (c_soft k) as [[w pen]|]; [|apply Qcle_refl].
+  specialize (Hw w pen eq_refl).
+  destruct (satisfied atol rtol k s) eqn:Es; [apply Qcle_refl|].
+  assert (Hv : 0 <= violation k s).
+  { assert (Hn : ~ violation k s <= tolerance atol rtol k)
+      by (intro X; apply Qc_leb_le in X; unfold satisfied in Es; rewrite X in Es; discriminate Es).
+    apply Qcnot_le_lt in Hn. apply Qclt_le_weak.
+    eapply Qcle_lt_trans; [|exact Hn]. unfold tolerance.
+    rewrite <- (Qcplus_0_l 0). apply Qcplus_le_compat; [exact Ha|].
+    rewrite <- (Qcmult_0_l (qabs (c_rhs k))). apply Qcmult_le_compat_r; [exact Hr|apply qabs_nonneg]. }
+  destruct pen.
+  - rewrite <- (Qcmult_0_l (violation k s)). apply Qcmult_le_compat_r; assumption.
+  - rewrite <- (Qcmult_0_l (violation k s * violation k s)). apply Qcmult_le_compat_r; [exact Hw|].
+    rewrite <- (Qcmult_0_l (violation k s)). apply Qcmult_le_compat_r; assumption.
+Qed.
+
+(* ---------- labels and order of iter_violations ---------- *)
+
+Lemma map_fst_combine_seq {B} (l : list B) : map fst (combine (seq 0 (length l)) l) = seq 0 (length l).
+Proof.
+  generalize 0%nat. induction l as [|b l IH]; intros n; cbn [length seq combine map]; [reflexivity|].
+  cbn [fst]. rewrite IH. reflexivity.
+Qed.
+
+Lemma spec_violation_list_labels m s : map fst (spec_violation_list m s) = seq 0 (length (m_cons m)).
+Proof.
+  unfold spec_violation_list.
+  pose proof (map_fst_combine_seq (map (fun k => violation k s) (m_cons m))) as H.
+  rewrite map_length in H. exact H.
+Qed.
+
+(* without skip_satisfied: one entry per constraint, in constraint order *)
+Lemma iter_violations_labels m s clip :
+  map fst (iter_violations m s false clip) = seq 0 (length (m_cons m)).
+Proof.
+  rewrite iter_violations_spec. destruct clip.
+  - rewrite map_map. cbn [fst]. apply spec_violation_list_labels.
+  - apply spec_violation_list_labels.
+Qed.
+
+(* with skip_satisfied: exactly the constraints with a positive violation, still in constraint order *)
+Lemma iter_violations_skip_labels m s clip :
+  map fst (iter_violations m s true clip)
+  = map fst (filter (fun iv => negb (Qc_leb (snd iv) 0)) (spec_violation_list m s)) /\
+  (forall iv, In iv (iter_violations m s true clip) -> In iv (spec_violation_list m s) /\ ~ snd iv <= 0).
+Proof.
+  rewrite iter_violations_spec. split; [reflexivity|].
+  intros iv Hin. apply filter_In in Hin. destruct Hin as [Hin Hp]. split; [exact Hin|].
+  intro X. apply Qc_leb_le in X. rewrite X in Hp. discriminate Hp.
+Qed.
+
+(* ---------- ExactCQMSolver: the feasibility column ---------- *)
+
+Lemma exact_solver_feasible_column atol rtol m cases garb :
+  v_is_feasible (exact_cqm_solver atol rtol m cases garb) = map (feasible atol rtol m) cases.
+Proof. unfold exact_cqm_solver. rewrite from_samples_cqm_spec. reflexivity. Qed.
+
+Lemma exact_solver_reports_feasible atol rtol m cases garb :
+  In true (v_is_feasible (exact_cqm_solver atol rtol m cases garb))
+  <-> exists s, In s cases /\ feasible atol rtol m s = true.
+Proof.
+  rewrite exact_solver_feasible_column, in_map_iff. split.
+  - intros [s [Hs Hin]]. exists s. split; assumption.
+  - intros [s [Hin Hs]]. exists s. split; assumption.
+Qed.
